@@ -457,6 +457,8 @@ def send_tx(
                     round(utxo["amount"] * 1e8),
                     scriptcode,
                     txouts,
+                    version=version,
+                    locktime=locktime,
                     sighash_flag=sighash_flag,
                 )
                 for txin_index, utxo in enumerate(selected_utxos)
